@@ -19,7 +19,9 @@ RULE = (
     "(type variable without bounds / droppable-only / copyable, owned and borrowed parameters) called at several "
     "instantiations within one function: int variable, qubit or struct place, fresh qubit or struct -- each call is judged at "
     "its own instantiation by the oracle and, through the per-occurrence kinds of the extracted CFG, by the model; systematic "
-    "scope (1c): 432 programs with two generic calls at different instantiations, straight-line / across a branch / a loop). "
+    "scope (1c): 432 programs with two generic calls at different instantiations, straight-line / across a branch / a loop; "
+    "linear arrays `array[qubit, 2]` whose elements are lent (`h(a[0])`, `cx(a[0], a[1])`, `bor(a[n])`, the array lent whole "
+    "and through an element in one call) or wrongly moved out (MoveOutOfSubscriptError), systematic scope (1d) of 864 programs). "
     "Streams: (1) the hand-written corpus (facts of DESIGN.md, gap and fix witnesses, near-miss shapes); (1b) a systematic "
     "scope of 192 programs that re-bind a variable qubit<->int in a block it flows into; (2) a small "
     "scope enumerated systematically: 5 control skeletons x {owned, borrowed, local} x 4 slots x 5 actions, on a qubit and on a "
@@ -53,7 +55,8 @@ ASSUMPTIONS = [
     "of the fragment are linear (qubit) or copyable+droppable (int, bool)",
 ]
 UNMODELLED = [
-    "comprehensions, subscripts/arrays, nested functions and captures, partial application, modifiers (`with control`), "
+    "comprehensions and `for` loops over arrays, subscript assignment, subscripts of projections / nested subscripts, arrays "
+    "of copyable elements (affine), nested functions and captures, partial application, modifiers (`with control`), "
     "affine types (non-copyable but droppable; so generic helpers are instantiated at copyable and linear types only), "
     "generic helpers returning their type parameter, field access on unnamed values (`mkS().a`)",
     "the surface->CFG builder and the type checker's block signatures (the model takes the checked CFG; C03/C08 cover them)",
@@ -102,10 +105,10 @@ MANIFEST = {
 
 STRUCTS = {"S": [("a", "Q"), ("b", "Q")], "T": [("q", "Q"), ("n", "I")], "U": [("s", "S"), ("q", "Q")]}
 TUPLES = {"P": ["Q", "Q"], "R": ["Q", "I"]}
-LEAFT = {"Q": True, "I": False, "B": False}  # type -> linear?
-VTYPE = {"q": "Q", "n": "I", "c": "B", "s": "S", "t": "T", "u": "U", "p": "P", "r": "R"}
+LEAFT = {"Q": True, "I": False, "B": False, "A": True}  # leaf type -> linear?  (A: array[qubit, 2], one leaf)
+VTYPE = {"q": "Q", "n": "I", "c": "B", "s": "S", "t": "T", "u": "U", "p": "P", "r": "R", "a": "A"}
 GUPPY_TY = {"*": "TL", "*d": "TD", "*c": "TC", "Q": "qubit", "I": "int", "B": "bool", "S": "S", "T": "T", "U": "U",
-            "P": "tuple[qubit, qubit]", "R": "tuple[qubit, int]"}
+            "P": "tuple[qubit, qubit]", "R": "tuple[qubit, int]", "A": "array[qubit, 2]"}
 
 # name -> ([(mode, type)…], return type | None);  mode "o" owned, "b" borrowed, "c" copyable (no flag)
 FUNS = {
@@ -119,6 +122,8 @@ FUNS = {
     "cons": ([("o", "Q"), ("b", "Q")], "Q"), "pair": ([("o", "Q"), ("o", "Q")], "P"),
     "measure": ([("o", "Q")], "B"), "discard": ([("o", "Q")], None), "h": ([("b", "Q")], None), "cx": ([("b", "Q"), ("b", "Q")], None),
     "geti": ([("c", "I")], "I"),
+    "mkA": ([], "A"), "useA": ([("o", "A")], None), "borA": ([("b", "A")], None),
+    "borAQ": ([("b", "A"), ("b", "Q")], None), "borQA": ([("b", "Q"), ("b", "A")], None),
     # generic helpers: parameter type `*` = a type variable without bounds (any instantiation), `*d` droppable only,
     # `*c` copyable and droppable; each call is judged at its own instantiation
     "gpeek": ([("b", "*")], "I"), "gtake": ([("o", "*")], None), "gpeek2": ([("b", "*"), ("b", "*")], "I"),
@@ -187,15 +192,25 @@ def sub_types(ty):
     return []
 
 
+def is_sub(pl):
+    """a subscript place `a0[0]` / `a0[n1]`: last path element "#0" / "#n1" """
+    return bool(pl[1]) and isinstance(pl[1][-1], str) and pl[1][-1].startswith("#")
+
+
 def place_type(pl):
     ty = vtype(pl[0])
     for el in pl[1]:
+        if isinstance(el, str) and el.startswith("#"):
+            ty = "Q"
+            continue
         ty = dict(sub_types(ty))[el]
     return ty
 
 
 def leaves_of(pl):
-    """leaf places of a place, each as (var, path)"""
+    """leaf places of a place, each as (var, path); an element of an array stands for the array (one leaf)"""
+    if is_sub(pl):
+        return leaves_of((pl[0], pl[1][:-1]))
     ty = place_type(pl)
     subs = sub_types(ty)
     if not subs:
@@ -213,7 +228,10 @@ def lin_leaves(pl):
 def show_place(pl):
     s = show_var(pl[0])
     for el in pl[1]:
-        s += f".{el}" if isinstance(el, str) else f"[{el}]"
+        if isinstance(el, str) and el.startswith("#"):
+            s += f"[{show_var(el[1:]) if not el[1:].isdigit() else el[1:]}]"
+        else:
+            s += f".{el}" if isinstance(el, str) else f"[{el}]"
     return s
 
 
@@ -316,6 +334,16 @@ def oracle(prog):
                 if m == "b" and r2 and _ret_has_lin(r2):
                     static.append("DropAfterCall")
                 continue
+            if is_sub(a):
+                # an array element: only lendable.  __getitem__ borrows the array and hands it back at once; after
+                # the call __setitem__ borrows it again and the array is handed back
+                if m != "b":
+                    static.append("MoveOutOfSubscript")
+                    continue
+                for l in lin_leaves(a):
+                    ops += [("use", l), ("give", l)]
+                    gives += [("use", l), ("give", l), ("give", l)]
+                continue
             if m != "b" and a[1] == () and a[0] in borrowed_vars:
                 static.append("NotOwned")
             ops += [("use", l) for l in lin_leaves(a)]
@@ -334,6 +362,9 @@ def oracle(prog):
             ops, static = [], []
             srcs = s[2] if s[0] == "move" else s[1]
             for a in srcs:
+                if is_sub(a):
+                    static.append("MoveOutOfSubscript")
+                    continue
                 if a[1] == () and a[0] in borrowed_vars:
                     static.append("NotOwned")
                 ops += [("use", l) for l in lin_leaves(a)]
@@ -560,6 +591,16 @@ class _Enc:
         is_leaf = "0" if isinstance(place.ty, (StructType, TupleType)) else "1"
         return "(p " + " ".join([v, is_leaf] + [f"({i} {1 if k else 0})" for i, k in ls]) + ")"
 
+    def subscript(self, place):
+        """the SubscriptAccess if `place` is a subscript of a plain place, None if it involves no subscript"""
+        from guppylang_internals.checker.core import SubscriptAccess, contains_subscript
+        sub = contains_subscript(place)
+        if sub is None:
+            return None
+        if sub is not place or contains_subscript(sub.parent) is not None:
+            raise Unsupported("projection of / nested subscript")
+        return sub
+
     def pattern(self, node):
         from guppylang_internals.nodes import PlaceNode, TupleUnpack
         if isinstance(node, PlaceNode):
@@ -583,6 +624,13 @@ class _Enc:
         from guppylang_internals.nodes import GlobalCall, PlaceNode
         from guppylang_internals.tys.ty import InputFlags
         if isinstance(node, PlaceNode):
+            sub = self.subscript(node.place)
+            if sub is not None:
+                # visit_PlaceNode on a subscript place: MoveOutOfSubscriptError unless lent or copyable; else
+                # visit(item_expr); scope.assign(item); visit(__getitem__(parent, item))
+                if kind != "1" and not sub.ty.copyable:
+                    return ["(m)"]
+                return self.expr(sub.item_expr) + [f"(g {self.place(sub.item)})"] + self.expr(sub.getitem_call)
             return [f"(u {self.place(node.place)} {kind})"]
         if isinstance(node, ast.Constant):
             return []
@@ -603,7 +651,16 @@ class _Enc:
                 out += self.expr(a, "1" if fl else "0") if isinstance(a, PlaceNode) else self.expr(a)
             for fl, a in zip(flags, node.args, strict=True):
                 if fl:
-                    if isinstance(a, PlaceNode):
+                    if isinstance(a, PlaceNode) and self.subscript(a.place) is not None:
+                        # _reassign_single_inout_arg on a subscript place: assign the leaves of value_var,
+                        # visit(__setitem__(parent, item, value_var)), then reassign the parent
+                        sub = self.subscript(a.place)
+                        if sub.setitem_call is None:
+                            raise Unsupported("subscript without __setitem__")
+                        out.append(f"(g {self.place(sub.setitem_call.value_var)})")
+                        out += self.expr(sub.setitem_call.call)
+                        out.append(f"(g {self.place(sub.parent)})")
+                    elif isinstance(a, PlaceNode):
                         out.append(f"(g {self.place(a.place)})")
                     elif not get_type(a).droppable:
                         out.append("(d)")
@@ -718,9 +775,10 @@ def run_real(src):
 # generator: valid by construction, then near-miss mutations
 # --------------------------------------------------------------------------------------
 
-MAKERS = {"Q": ["qubit", "mk"], "S": ["mkS"], "T": ["mkT"], "U": ["mkU"], "P": ["mkP"], "R": ["mkR"]}
-USERS = {"Q": ["use", "discard", "measure"], "S": ["useS"], "T": ["useT"], "U": ["useU"], "P": ["useP"], "R": ["useR"]}
-BORROWERS = {"Q": ["bor", "h"], "S": ["borS"], "T": ["borT"], "U": ["borU"], "P": ["borP"], "R": ["borR"]}
+MAKERS = {"Q": ["qubit", "mk"], "S": ["mkS"], "T": ["mkT"], "U": ["mkU"], "P": ["mkP"], "R": ["mkR"], "A": ["mkA"]}
+USERS = {"Q": ["use", "discard", "measure"], "S": ["useS"], "T": ["useT"], "U": ["useU"], "P": ["useP"], "R": ["useR"],
+         "A": ["useA"]}
+BORROWERS = {"Q": ["bor", "h"], "S": ["borS"], "T": ["borT"], "U": ["borU"], "P": ["borP"], "R": ["borR"], "A": ["borA"]}
 
 
 class Gen:
@@ -791,8 +849,26 @@ class Gen:
             if st is not None:
                 return st
         places = self.whole_places(owned, defd)
+        arrs = [p for p in places if place_type(p) == "A"]
+        if arrs and r.random() < 0.5:
+            # lend elements of a linear array
+            a = r.choice(arrs)
+            ints = sorted(v for v in defd if v[0] == "n")
+            idx = lambda: "#" + (r.choice(ints) if ints and r.random() < 0.4 else str(r.randint(0, 1)))
+            e1, e2 = (a[0], a[1] + (idx(),)), (a[0], a[1] + (idx(),))
+            x = r.random()
+            if x < 0.5:
+                return ("call", [], r.choice(["bor", "h"]), [e1]), owned, defd
+            if x < 0.8:
+                return ("call", [], r.choice(["cx", "bor2"]), [e1, e2]), owned, defd
+            if x < 0.9:
+                return (("call", [], "borAQ", [a, e1]) if r.random() < 0.5 else ("call", [], "borQA", [e1, a])), owned, defd
+            qs = [p for p in places if place_type(p) == "Q" and self.usable(p, "o")]
+            if qs:
+                return ("call", [], "mix", [e1, r.choice(qs)]), owned - set(lin_leaves(qs[-1])) if False else owned, defd
+            return ("call", [], "bor", [e1]), owned, defd
         if k < 0.22 or not places:
-            ty = r.choice(["Q", "Q", "Q", "S", "T", "U", "P", "R"])
+            ty = r.choice(["Q", "Q", "Q", "S", "T", "U", "P", "R", "A"])
             # new variable, or re-fill a fully consumed old place
             empties = [pl for pl in self.empty_places(owned, defd) if self.assignable(pl) and place_type(pl) == ty]
             if empties and r.random() < 0.6:
@@ -1062,7 +1138,7 @@ class Gen:
         defd = set()
         owned = set()
         for _ in range(r.randint(0, 3)):
-            ty = r.choice(["Q", "Q", "S", "T", "U", "P", "R"])
+            ty = r.choice(["Q", "Q", "S", "T", "U", "P", "R", "A"])
             v = self.fresh(ty)
             b = r.random() < 0.5
             params.append((v, b))
@@ -1573,6 +1649,35 @@ def rebind_scope():
     return out
 
 
+def subscript_scope():
+    """element borrows of a linear array: two actions from a menu, straight-line / across a branch, array owned /
+    borrowed / local (moving an element out is rejected, lending it is not a use of the array)"""
+    a, q, n = ("a0", ()), ("q0", ()), ("n0", ())
+    e0, e1, en = ("a0", ("#0",)), ("a0", ("#1",)), ("a0", ("#n0",))
+    menu = [
+        ("call", [], "h", [e0]), ("call", [], "cx", [e0, e1]), ("call", [], "bor", [en]), ("call", [], "use", [e0]),
+        ("move", [("q1", ())], [e1]), ("call", [], "borA", [a]), ("call", [], "useA", [a]), ("call", [], "mix", [e0, q]),
+        ("call", [("q2", ())], "cons", [q, e1]), ("ret", [e0]),
+        # the array lent as a whole and through one of its elements in the same call
+        ("call", [], "borAQ", [a, e0]), ("call", [], "borQA", [e1, a]),
+    ]
+    out = []
+    for mode in ("owned", "borrowed", "local"):
+        for x in menu:
+            for y in menu:
+                for k in range(2):
+                    if x[0] == "ret":
+                        continue
+                    body = [("move", [n], [])]
+                    if mode == "local":
+                        body.append(("call", [a], "mkA", []))
+                    body += [x, y] if k == 0 else [x, ("if", "c0", [y], [])]
+                    ret = "Q" if y[0] == "ret" else None
+                    params = ([] if mode == "local" else [("a0", mode == "borrowed")]) + [("q0", False), ("c0", False)]
+                    out.append(({"params": params, "ret": ret, "body": body}, ["subscript:" + mode]))
+    return out
+
+
 def generic_scope():
     """two calls of generic helpers at different instantiations within one function, straight-line / across a
     branch / across a loop, in both orders (a memoised or shared signature would judge one at the other's type)"""
@@ -1623,6 +1728,8 @@ def tie(ctx):
         cases.append((prog, tags, "rebind-scope"))
     for prog, tags in generic_scope():
         cases.append((prog, tags, "generic-scope"))
+    for prog, tags in subscript_scope():
+        cases.append((prog, tags, "subscript-scope"))
     n = ctx.n(300, 50000)
     for i in range(n):
         size = ctx.rng.choice([2, 3, 4, 6, 8])
